@@ -100,11 +100,13 @@ def _configs(cfgs, lines):
     text = '\n'.join(lines) + '\n'
     checked = 0
     per = {}
+    outs = {}
     for (s, nd, o, am) in cfgs:
         name = 'cfg_%s_%s_%s_%s' % (s.replace('+', 'p'), 'ndebug' if nd else 'assert', o[1:], 'amal' if am else 'mod')
         exe = os.path.join(outdir, name)
         if not os.path.exists(exe): continue
         out, rc, err = run_ops(exe, text)
+        outs[name] = (tuple(out), rc)
         bad = None
         for i in range(min(len(out), len(lines))):
             if expect[i] is None: continue
@@ -118,6 +120,11 @@ def _configs(cfgs, lines):
             while j > 0 and lines[j] != 'case': j -= 1
             detail = 'configuration %s: transcript differs from the model\n got      %s\n expected %s\n rc=%s %s' % (name, out[bad][:600] if bad < len(out) else '<process died>', (expect[bad] or '')[:600], rc, err[-800:])
             viol.append(('config:' + name, lines[j:bad + 1], detail, True))
+    # C18 is about the configurations agreeing WITH EACH OTHER.  When every configuration prints the very same transcript
+    # (and exits normally) but that transcript differs from the model's, the library's behaviour changed uniformly: the
+    # correspondence with the model is broken (the theorems no longer transfer), but no input separates two configurations
+    if len(outs) >= 2 and len(set(outs.values())) == 1 and all(rc0 == 0 for (_, rc0) in outs.values()):
+        viol = [((k, ls, 'every configuration prints the same transcript; it differs from the model (broken correspondence, the configurations agree with each other)\n' + d, False) if k.startswith('config:') else (k, ls, d, f)) for (k, ls, d, f) in viol]
     # the same fixed script of operations run DURING STATIC INITIALISATION (before the library's own translation units
     # are initialised) and again from main(), in every configuration: the two transcripts must be identical
     early = {}
